@@ -58,6 +58,15 @@ package agent
 //@ prop C20
 //@ modifies *
 //@ at call forward.(*Handler).HandleStreamOpen assert hasprefix(destAddr, protocol.ForwardStreamPrefix) && $5 == destAddr[len(protocol.ForwardStreamPrefix):]
+//@ note C03: every responder is handed the request id and the initiator's public key of the received STREAM_OPEN; a transit forwards both unchanged
+//@ after call protocol.DecodeStreamOpen let c03in = $ret0
+//@ at[C03] call exit.(*Handler).HandleStreamOpen assert $3 == c03in.RequestID && $7 == c03in.EphemeralPubKey
+//@ at[C03] call forward.(*Handler).HandleStreamOpen assert $3 == c03in.RequestID && $6 == c03in.EphemeralPubKey
+//@ at[C03] call handleFileUploadStreamOpen assert $3 == c03in.RequestID && $4 == c03in.EphemeralPubKey
+//@ at[C03] call handleFileDownloadStreamOpen assert $3 == c03in.RequestID && $4 == c03in.EphemeralPubKey
+//@ at[C03] call handleShellStreamOpen assert $3 == c03in.RequestID && $5 == c03in.EphemeralPubKey
+//@ at[C03] call (*StreamOpen).Encode assert $0.RequestID == c03in.RequestID && $0.EphemeralPubKey == c03in.EphemeralPubKey
+//@ at[C04] call SendToPeer assert !c04data($2.Type)
 
 // ---- C07: chunking on the ingress side and exact re-assembly ----
 //
@@ -87,6 +96,10 @@ package agent
 //@ ensures 0 <= result && result <= len(b)
 //@ ensures err == nil ==> result == len(b)
 //@ ensures err == nil && len(b) > 0 ==> c07sent == len(b)
+//@ note C04 (ingress endpoint, TCP stream and port forward): every frame this writer sends is a STREAM_DATA frame whose whole payload is the output of Encrypt under the stream's session key (a missing key is an error, nothing is sent)
+//@ after call GetSessionKey let c04key = $ret
+//@ at[C04] call Encrypt assert $0 == c04key && c04key != nil
+//@ at[C04] call SendToPeer assert $2.Type == protocol.FrameStreamData && $2.Payload == ct
 
 //@ func (*meshConn).Read
 //@ prop C07
@@ -124,6 +137,9 @@ package agent
 //@ at call SendToPeer#1 let pieceLen = len($2.Payload)
 //@ after call SendToPeer#1 set c07sent = ite($ret == nil, c07sent + pieceLen, c07sent)
 //@ ensures err == nil && len(data) > 0 ==> c07sent == len(data)
+//@ note C04: the stream writer of the exit, forward, shell and file handlers adds nothing of its own: each frame carries an empty payload or a piece of the caller's (already sealed) data
+//@ at[C04] call SendToPeer#0 assert len($2.Payload) == 0
+//@ at[C04] call SendToPeer#1 assert base($2.Payload) == base(data) && offset(data) <= offset($2.Payload) && offset($2.Payload) + len($2.Payload) <= offset(data) + len(data)
 
 // forwardShellClientData (API client -> remote shell): every message popped
 // from the adapter is passed through shell.SplitMessage with the one-frame
@@ -142,6 +158,9 @@ package agent
 //@ at call Encrypt assert len($1) <= 16356 || (len(msgIn) > 16356 && msgIn[0] != shell.MsgStdin && msgIn[0] != shell.MsgStdout && msgIn[0] != shell.MsgStderr)
 //@ after call Encrypt let ct = $ret0
 //@ at call SendToPeer assert $2.Payload == ct && $2.Type == protocol.FrameStreamData && $2.StreamID == streamID && $2.Flags == 0 && $1 == nextHop
+//@ after call GetSessionKey let c04key = $ret
+//@ at[C04] call Encrypt assert $0 == c04key && c04key != nil
+//@ at[C04] call SendToPeer assert $2.Payload == ct
 
 // File transfer senders: each read of n bytes (buffer smaller than the
 // one-frame plaintext limit) is sealed as one message and handed to
@@ -156,6 +175,10 @@ package agent
 //@ at call Encrypt#0 assert base($1) == base(buf) && offset($1) == offset(buf) && len($1) == nRead
 //@ after call Encrypt#0 let ct = $ret0
 //@ at call WriteStreamData#0 assert $3 == ct && len($3) <= 16384 && $1 == peerID && $2 == streamID
+//@ after call Encrypt#1 let c04fin = $ret0
+//@ at[C04] call Encrypt assert $0 == sessionKey
+//@ at[C04] call WriteStreamData#0 assert $3 == ct
+//@ at[C04] call WriteStreamData#1 assert $3 == c04fin
 
 //@ func (*Agent).sendFileDownload
 //@ prop C07
@@ -166,6 +189,10 @@ package agent
 //@ at call Encrypt#1 assert base($1) == base(buf) && offset($1) == offset(buf) && len($1) == nRead
 //@ after call Encrypt#1 let ct = $ret0
 //@ at call WriteStreamData#1 assert $3 == ct && len($3) <= 16384 && $1 == fts.PeerID && $2 == fts.StreamID
+//@ after call Encrypt#0 let c04meta = $ret0
+//@ at[C04] call Encrypt assert $0 == fts.sessionKey && fts.sessionKey != nil
+//@ at[C04] call WriteStreamData#0 assert $3 == c04meta
+//@ at[C04] call WriteStreamData#1 assert $3 == ct
 
 // Transit: a relayed STREAM_DATA frame carries the received payload and flags unchanged.
 
@@ -174,6 +201,8 @@ package agent
 //@ modifies *, c07sent
 //@ at call SendToPeer#0 assert $2.Payload == frame.Payload && $2.Flags == frame.Flags && $2.Type == protocol.FrameStreamData
 //@ at call SendToPeer#1 assert $2.Payload == frame.Payload && $2.Flags == frame.Flags && $2.Type == protocol.FrameStreamData
+//@ note C04 (transit): both relay branches forward the received payload unchanged; they touch no key (a relayEntry has only peer and stream ids, and no function of this package that relays is in the C03 census of key derivation)
+//@ at[C04] call SendToPeer assert $2.Payload == frame.Payload
 
 // ---- C16 / C17: the relay table (shared by TCP streams, UDP associations and ICMP sessions) ----
 //
@@ -246,16 +275,17 @@ package agent
 //@ mapwritesonly[C39] Agent.forwardedControl: (*Agent).handleControlRequest, (*Agent).handleControlResponse, (*Agent).routeAdvertiseLoop
 
 //@ func (*Agent).SendControlRequestWithData
-//@ prop C39
+//@ prop C39 C04
 //@ modifies *
 //@ check lockset
 //@ after call Lock#0 assume a.nextControlID < 18446744073709551615
 //@ at call Unlock#0 assert has(a.pendingControl, requestID) && a.pendingControl[requestID] == pending && pending.RequestID == requestID
 //@ at call (*ControlRequest).Encode assert $0.RequestID == requestID && $0.TargetAgent == targetID && $0.ControlType == controlType
 //@ note the assumption: fewer than 2^64-1 control requests are issued or forwarded in an agent's lifetime (the counter does not wrap)
+//@ at[C04] call SendToPeer assert !c04data($2.Type)
 
 //@ func (*Agent).handleControlRequest
-//@ prop C39
+//@ prop C39 C04
 //@ modifies *
 //@ check lockset
 //@ after call DecodeControlRequest let req0 = $ret0
@@ -267,14 +297,16 @@ package agent
 //@ at call handleRouteManage assert req.TargetAgent == a.id || forall j in 0..16: req.TargetAgent[j] == 0
 //@ at call handleFileBrowse assert req.TargetAgent == a.id || forall j in 0..16: req.TargetAgent[j] == 0
 //@ note a request is answered locally only if it names this agent (or no agent); the answer and every error reply go to the peer the request came from, under the requester's id
+//@ at[C04] call SendToPeer assert !c04data($2.Type)
 
 //@ func (*Agent).handleControlResponse
-//@ prop C39
+//@ prop C39 C04
 //@ modifies *
 //@ check lockset
 //@ at call (*ControlResponse).Encode assert hasForwarded && $0.RequestID == forwarded.RequestID
 //@ at call SendToPeer assert hasForwarded && !(hasPending && pending.ResponseCh != nil) && $1 == forwarded.SourcePeer
 //@ note a response is handed to a local waiter only if its id is a key of pendingControl (ids this agent issued itself), otherwise it is sent to the source peer remembered for that key, carrying the requester's own id
+//@ at[C04] call SendToPeer assert !c04data($2.Type)
 
 //@ func (*Agent).routeAdvertiseLoop
 //@ prop C39
@@ -283,3 +315,613 @@ package agent
 //@ loop 1 invariant a.pendingControl != a.forwardedControl && (forall k uint64: has(a.pendingControl, k) ==> k <= a.nextControlID) && (forall k uint64: has(a.forwardedControl, k) ==> k <= a.nextControlID) && (forall k uint64: !(has(a.pendingControl, k) && has(a.forwardedControl, k)))
 //@ loop 2 invariant a.pendingControl != a.forwardedControl && (forall k uint64: has(a.pendingControl, k) ==> k <= a.nextControlID) && (forall k uint64: has(a.forwardedControl, k) ==> k <= a.nextControlID) && (forall k uint64: !(has(a.pendingControl, k) && has(a.forwardedControl, k)))
 //@ note the periodic clean-up only deletes entries; the obligations generated here are the lock invariant at its release and the lockset of its map accesses
+// ---- C03: key agreement at the tunnel ends that live in package agent ----
+//
+// Initiator (ingress) sites: one fresh pair per OPEN; the OPEN frame carries that
+// pair's public key and the request id under which the pending request waits; the
+// secret is ECDH(own private, public key returned in the ACK) with nil error; the
+// key is derived for (that request id, own public, remote public, initiator) and
+// becomes the stream's key.
+
+//@ func (*Agent).DialContext
+//@ prop C03
+//@ modifies *
+//@ after call crypto.GenerateEphemeralKeypair let c03priv = $ret0
+//@ after call crypto.GenerateEphemeralKeypair let c03pub = $ret1
+//@ after call crypto.GenerateEphemeralKeypair let c03genErr = $ret2
+//@ after call OpenStream let c03rid = $ret.RequestID
+//@ at call SetPendingEphemeralKeys assert $1 == c03rid && $2 == c03priv && $3 == c03pub && c03genErr == nil
+//@ at call (*StreamOpen).Encode assert $0.RequestID == c03rid && $0.EphemeralPubKey == c03pub
+//@ after call (*StreamOpen).Encode let c03open = $ret
+//@ at call SendToPeer#0 assert $2.Type == protocol.FrameStreamOpen && $2.Payload == c03open
+//@ at call crypto.ComputeECDH assert c03genErr == nil && c03pub == pubOf(c03priv)
+//@ at call crypto.ComputeECDH let c03remote = $1
+//@ at call crypto.ComputeECDH assert $0 == c03priv && $1 == result.RemoteEphemeral
+//@ after call crypto.ComputeECDH let c03secret = $ret0
+//@ after call crypto.ComputeECDH let c03dhErr = $ret1
+//@ at call crypto.DeriveSessionKey assert c03dhErr == nil && $0 == c03secret && c03secret == dh(c03priv, c03remote) && c03secret != zeros()
+//@ at call crypto.DeriveSessionKey assert $1 == c03rid && $2 == c03pub && $3 == c03remote && $4 == true
+//@ after call crypto.DeriveSessionKey let c03key = $ret
+//@ at call SetSessionKey assert $1 == c03key && c03key != nil
+//@ at[C04] call SendToPeer assert !c04data($2.Type)
+
+//@ func (*Agent).dialViaDomainRouteWithContext
+//@ prop C03
+//@ modifies *
+//@ after call crypto.GenerateEphemeralKeypair let c03priv = $ret0
+//@ after call crypto.GenerateEphemeralKeypair let c03pub = $ret1
+//@ after call crypto.GenerateEphemeralKeypair let c03genErr = $ret2
+//@ after call OpenStream let c03rid = $ret.RequestID
+//@ at call SetPendingEphemeralKeys assert $1 == c03rid && $2 == c03priv && $3 == c03pub && c03genErr == nil
+//@ at call (*StreamOpen).Encode assert $0.RequestID == c03rid && $0.EphemeralPubKey == c03pub
+//@ after call (*StreamOpen).Encode let c03open = $ret
+//@ at call SendToPeer#0 assert $2.Type == protocol.FrameStreamOpen && $2.Payload == c03open
+//@ at call crypto.ComputeECDH assert c03genErr == nil && c03pub == pubOf(c03priv)
+//@ at call crypto.ComputeECDH let c03remote = $1
+//@ at call crypto.ComputeECDH assert $0 == c03priv && $1 == result.RemoteEphemeral
+//@ after call crypto.ComputeECDH let c03secret = $ret0
+//@ after call crypto.ComputeECDH let c03dhErr = $ret1
+//@ at call crypto.DeriveSessionKey assert c03dhErr == nil && $0 == c03secret && c03secret == dh(c03priv, c03remote) && c03secret != zeros()
+//@ at call crypto.DeriveSessionKey assert $1 == c03rid && $2 == c03pub && $3 == c03remote && $4 == true
+//@ after call crypto.DeriveSessionKey let c03key = $ret
+//@ at call SetSessionKey assert $1 == c03key && c03key != nil
+//@ at[C04] call SendToPeer assert !c04data($2.Type)
+
+//@ func (*Agent).DialForward
+//@ prop C03
+//@ modifies *
+//@ after call crypto.GenerateEphemeralKeypair let c03priv = $ret0
+//@ after call crypto.GenerateEphemeralKeypair let c03pub = $ret1
+//@ after call crypto.GenerateEphemeralKeypair let c03genErr = $ret2
+//@ after call OpenStream let c03rid = $ret.RequestID
+//@ at call SetPendingEphemeralKeys assert $1 == c03rid && $2 == c03priv && $3 == c03pub && c03genErr == nil
+//@ at call (*StreamOpen).Encode assert $0.RequestID == c03rid && $0.EphemeralPubKey == c03pub
+//@ after call (*StreamOpen).Encode let c03open = $ret
+//@ at call SendToPeer#0 assert $2.Type == protocol.FrameStreamOpen && $2.Payload == c03open
+//@ at call crypto.ComputeECDH assert c03genErr == nil && c03pub == pubOf(c03priv)
+//@ at call crypto.ComputeECDH let c03remote = $1
+//@ at call crypto.ComputeECDH assert $0 == c03priv && $1 == result.RemoteEphemeral
+//@ after call crypto.ComputeECDH let c03secret = $ret0
+//@ after call crypto.ComputeECDH let c03dhErr = $ret1
+//@ at call crypto.DeriveSessionKey assert c03dhErr == nil && $0 == c03secret && c03secret == dh(c03priv, c03remote) && c03secret != zeros()
+//@ at call crypto.DeriveSessionKey assert $1 == c03rid && $2 == c03pub && $3 == c03remote && $4 == true
+//@ after call crypto.DeriveSessionKey let c03key = $ret
+//@ at call SetSessionKey assert $1 == c03key && c03key != nil
+//@ at[C04] call SendToPeer assert !c04data($2.Type)
+
+//@ func (*Agent).UploadFile
+//@ prop C03
+//@ modifies *
+//@ after call crypto.GenerateEphemeralKeypair let c03priv = $ret0
+//@ after call crypto.GenerateEphemeralKeypair let c03pub = $ret1
+//@ after call crypto.GenerateEphemeralKeypair let c03genErr = $ret2
+//@ after call OpenStream let c03rid = $ret.RequestID
+//@ at call SetPendingEphemeralKeys assert $1 == c03rid && $2 == c03priv && $3 == c03pub && c03genErr == nil
+//@ at call (*StreamOpen).Encode assert $0.RequestID == c03rid && $0.EphemeralPubKey == c03pub
+//@ after call (*StreamOpen).Encode let c03open = $ret
+//@ at call SendToPeer#0 assert $2.Type == protocol.FrameStreamOpen && $2.Payload == c03open
+//@ at call crypto.ComputeECDH assert c03genErr == nil && c03pub == pubOf(c03priv)
+//@ at call crypto.ComputeECDH let c03remote = $1
+//@ at call crypto.ComputeECDH assert $0 == c03priv && $1 == result.RemoteEphemeral
+//@ after call crypto.ComputeECDH let c03secret = $ret0
+//@ after call crypto.ComputeECDH let c03dhErr = $ret1
+//@ at call crypto.DeriveSessionKey assert c03dhErr == nil && $0 == c03secret && c03secret == dh(c03priv, c03remote) && c03secret != zeros()
+//@ at call crypto.DeriveSessionKey assert $1 == c03rid && $2 == c03pub && $3 == c03remote && $4 == true
+//@ after call crypto.DeriveSessionKey let c03key = $ret
+//@ at call Encrypt assert $0 == c03key && c03key != nil
+//@ at call Decrypt assert $0 == c03key
+//@ at call streamFileContent assert $7 == c03key
+//@ after call Encrypt#0 let c04ct = $ret0
+//@ at[C04] call WriteStreamData#0 assert $3 == c04ct
+//@ at[C04] call SendToPeer assert !c04data($2.Type)
+
+//@ func (*Agent).DownloadFile
+//@ prop C03
+//@ modifies *
+//@ after call crypto.GenerateEphemeralKeypair let c03priv = $ret0
+//@ after call crypto.GenerateEphemeralKeypair let c03pub = $ret1
+//@ after call crypto.GenerateEphemeralKeypair let c03genErr = $ret2
+//@ after call OpenStream let c03rid = $ret.RequestID
+//@ at call SetPendingEphemeralKeys assert $1 == c03rid && $2 == c03priv && $3 == c03pub && c03genErr == nil
+//@ at call (*StreamOpen).Encode assert $0.RequestID == c03rid && $0.EphemeralPubKey == c03pub
+//@ after call (*StreamOpen).Encode let c03open = $ret
+//@ at call SendToPeer#0 assert $2.Type == protocol.FrameStreamOpen && $2.Payload == c03open
+//@ at call crypto.ComputeECDH assert c03genErr == nil && c03pub == pubOf(c03priv)
+//@ at call crypto.ComputeECDH let c03remote = $1
+//@ at call crypto.ComputeECDH assert $0 == c03priv && $1 == openResult.RemoteEphemeral
+//@ after call crypto.ComputeECDH let c03secret = $ret0
+//@ after call crypto.ComputeECDH let c03dhErr = $ret1
+//@ at call crypto.DeriveSessionKey assert c03dhErr == nil && $0 == c03secret && c03secret == dh(c03priv, c03remote) && c03secret != zeros()
+//@ at call crypto.DeriveSessionKey assert $1 == c03rid && $2 == c03pub && $3 == c03remote && $4 == true
+//@ after call crypto.DeriveSessionKey let c03key = $ret
+//@ at call Encrypt assert $0 == c03key && c03key != nil
+//@ at call Decrypt assert $0 == c03key
+//@ at call receiveAndExtractDirectory assert $6 == c03key
+//@ at call receiveAndWriteFile assert $8 == c03key
+//@ after call Encrypt#0 let c04ct = $ret0
+//@ at[C04] call WriteStreamData#0 assert $3 == c04ct
+//@ at[C04] call SendToPeer assert !c04data($2.Type)
+
+//@ func (*Agent).DownloadFileStream
+//@ prop C03
+//@ modifies *
+//@ after call crypto.GenerateEphemeralKeypair let c03priv = $ret0
+//@ after call crypto.GenerateEphemeralKeypair let c03pub = $ret1
+//@ after call crypto.GenerateEphemeralKeypair let c03genErr = $ret2
+//@ after call OpenStream let c03rid = $ret.RequestID
+//@ at call SetPendingEphemeralKeys assert $1 == c03rid && $2 == c03priv && $3 == c03pub && c03genErr == nil
+//@ at call (*StreamOpen).Encode assert $0.RequestID == c03rid && $0.EphemeralPubKey == c03pub
+//@ after call (*StreamOpen).Encode let c03open = $ret
+//@ at call SendToPeer#0 assert $2.Type == protocol.FrameStreamOpen && $2.Payload == c03open
+//@ at call crypto.ComputeECDH assert c03genErr == nil && c03pub == pubOf(c03priv)
+//@ at call crypto.ComputeECDH let c03remote = $1
+//@ at call crypto.ComputeECDH assert $0 == c03priv && $1 == openResult.RemoteEphemeral
+//@ after call crypto.ComputeECDH let c03secret = $ret0
+//@ after call crypto.ComputeECDH let c03dhErr = $ret1
+//@ at call crypto.DeriveSessionKey assert c03dhErr == nil && $0 == c03secret && c03secret == dh(c03priv, c03remote) && c03secret != zeros()
+//@ at call crypto.DeriveSessionKey assert $1 == c03rid && $2 == c03pub && $3 == c03remote && $4 == true
+//@ after call crypto.DeriveSessionKey let c03key = $ret
+//@ at call Encrypt assert $0 == c03key && c03key != nil
+//@ at call Decrypt assert $0 == c03key
+//@ after call Encrypt#0 let c04ct = $ret0
+//@ at[C04] call WriteStreamData#0 assert $3 == c04ct
+//@ at[C04] call SendToPeer assert !c04data($2.Type)
+
+//@ func (*Agent).OpenShellStream
+//@ prop C03
+//@ modifies *
+//@ after call crypto.GenerateEphemeralKeypair let c03priv = $ret0
+//@ after call crypto.GenerateEphemeralKeypair let c03pub = $ret1
+//@ after call crypto.GenerateEphemeralKeypair let c03genErr = $ret2
+//@ after call OpenStream let c03rid = $ret.RequestID
+//@ at call SetPendingEphemeralKeys assert $1 == c03rid && $2 == c03priv && $3 == c03pub && c03genErr == nil
+//@ at call (*StreamOpen).Encode assert $0.RequestID == c03rid && $0.EphemeralPubKey == c03pub
+//@ after call (*StreamOpen).Encode let c03open = $ret
+//@ at call SendToPeer#0 assert $2.Type == protocol.FrameStreamOpen && $2.Payload == c03open
+//@ at call crypto.ComputeECDH assert c03genErr == nil && c03pub == pubOf(c03priv)
+//@ at call crypto.ComputeECDH let c03remote = $1
+//@ at call crypto.ComputeECDH assert $0 == c03priv && $1 == result.RemoteEphemeral
+//@ after call crypto.ComputeECDH let c03secret = $ret0
+//@ after call crypto.ComputeECDH let c03dhErr = $ret1
+//@ at call crypto.DeriveSessionKey assert c03dhErr == nil && $0 == c03secret && c03secret == dh(c03priv, c03remote) && c03secret != zeros()
+//@ at call crypto.DeriveSessionKey assert $1 == c03rid && $2 == c03pub && $3 == c03remote && $4 == true
+//@ after call crypto.DeriveSessionKey let c03key = $ret
+//@ at call SetSessionKey assert $1 == c03key && c03key != nil
+//@ at call Encrypt assert $0 == c03key
+//@ after call Encrypt let c04ct = $ret0
+//@ at[C04] call SendToPeer#1 assert $2.Type == protocol.FrameStreamData && $2.Payload == c04ct
+//@ at[C04] call SendToPeer#0 assert !c04data($2.Type)
+
+// Responder for file transfers: a zero initiator key is refused; otherwise as every responder: one fresh
+// pair, secret = ECDH(own private, initiator public), key for (request id received, initiator public,
+// own public, responder). handleFileTransferStreamOpen stores exactly that key in the stream entry and
+// answers with the public key of the same pair under the same request id.
+
+//@ func deriveResponderSessionKey
+//@ prop C03
+//@ check bounds
+//@ after call crypto.GenerateEphemeralKeypair let c03priv = $ret0
+//@ after call crypto.GenerateEphemeralKeypair let c03pub = $ret1
+//@ after call crypto.GenerateEphemeralKeypair let c03genErr = $ret2
+//@ at call crypto.ComputeECDH assert c03genErr == nil && c03pub == pubOf(c03priv)
+//@ at call crypto.ComputeECDH assert $0 == c03priv && $1 == remoteEphemeralPub
+//@ after call crypto.ComputeECDH let c03secret = $ret0
+//@ after call crypto.ComputeECDH let c03dhErr = $ret1
+//@ at call crypto.DeriveSessionKey assert c03dhErr == nil && $0 == c03secret && c03secret == dh(c03priv, remoteEphemeralPub) && c03secret != zeros()
+//@ at call crypto.DeriveSessionKey assert $1 == requestID && $2 == remoteEphemeralPub && $3 == c03pub && $4 == false
+//@ after call crypto.DeriveSessionKey let c03key = $ret
+//@ ensures remoteEphemeralPub == zeros() ==> result2 != nil
+//@ ensures result2 == nil ==> result0 == c03key && result1 == c03pub
+//@ ensures result2 == nil ==> result0 != nil && !result0.isInitiator
+//@ ensures result2 == nil ==> exists p [32]byte: result1 == pubOf(p) && result0.key == kdf(dh(p, remoteEphemeralPub), requestID, remoteEphemeralPub, result1)
+//@ ensures result2 != nil ==> result0 == nil
+
+//@ func (*Agent).handleFileTransferStreamOpen
+//@ prop C03
+//@ modifies *
+//@ at call deriveResponderSessionKey assert $0 == requestID && $1 == remoteEphemeralPub
+//@ after call deriveResponderSessionKey let c03key = $ret0
+//@ after call deriveResponderSessionKey let c03pub = $ret1
+//@ after call deriveResponderSessionKey let c03err = $ret2
+//@ at call WriteStreamOpenAck assert c03err == nil && c03key != nil && fts.sessionKey == c03key && $3 == requestID && $6 == c03pub
+
+// ---- C03: UDP associations and ICMP sessions, initiator side ----
+//
+// The OPEN is built in one function (createDestAssociation / CreateICMPSession / OpenICMPSession): one fresh
+// pair, stored whole in the association together with the request id, and the OPEN frame carries that request
+// id and that public key. The key is derived later, in the ACK handler, from the stored pair. The fields that
+// holds the private key is written nowhere else (static scans below; it is only ever zeroed through
+// crypto.ZeroKey). The same scan cannot be stated for EphemeralPubKey / RequestID / SessionKey of these
+// unexported types: for an exported field NAME the scan is textual over the whole repository and collides
+// with the like-named fields of protocol.UDPOpen, udp.Association and others.
+
+//@ func (*Agent).createDestAssociation
+//@ prop C03
+//@ modifies *
+//@ after call generateUDPRequestID let c03rid = $ret
+//@ after call crypto.GenerateEphemeralKeypair let c03priv = $ret0
+//@ after call crypto.GenerateEphemeralKeypair let c03pub = $ret1
+//@ after call crypto.GenerateEphemeralKeypair let c03genErr = $ret2
+//@ at call (*UDPOpen).Encode assert c03genErr == nil && c03pub == pubOf(c03priv) && $0.RequestID == c03rid && $0.EphemeralPubKey == c03pub
+//@ at call (*UDPOpen).Encode assert dest.RequestID == c03rid && dest.EphemeralPrivKey == c03priv && dest.EphemeralPubKey == c03pub && dest.SessionKey == nil
+//@ after call (*UDPOpen).Encode let c03open = $ret
+//@ at call SendToPeer assert $2.Type == protocol.FrameUDPOpen && $2.Payload == c03open
+//@ at[C04] call SendToPeer assert !c04data($2.Type)
+
+//@ func (*Agent).CreateICMPSession
+//@ prop C03
+//@ modifies *
+//@ after call generateICMPRequestID let c03rid = $ret
+//@ after call crypto.GenerateEphemeralKeypair let c03priv = $ret0
+//@ after call crypto.GenerateEphemeralKeypair let c03pub = $ret1
+//@ after call crypto.GenerateEphemeralKeypair let c03genErr = $ret2
+//@ at call (*ICMPOpen).Encode assert c03genErr == nil && c03pub == pubOf(c03priv) && $0.RequestID == c03rid && $0.EphemeralPubKey == c03pub
+//@ at call (*ICMPOpen).Encode assert assoc.RequestID == c03rid && assoc.EphemeralPrivKey == c03priv && assoc.EphemeralPubKey == c03pub && assoc.SessionKey == nil
+//@ after call (*ICMPOpen).Encode let c03open = $ret
+//@ at call SendToPeer assert $2.Type == protocol.FrameICMPOpen && $2.Payload == c03open
+//@ at[C04] call SendToPeer assert !c04data($2.Type)
+
+//@ func (*Agent).OpenICMPSession
+//@ prop C03
+//@ modifies *
+//@ after call generateICMPRequestID let c03rid = $ret
+//@ after call crypto.GenerateEphemeralKeypair let c03priv = $ret0
+//@ after call crypto.GenerateEphemeralKeypair let c03pub = $ret1
+//@ after call crypto.GenerateEphemeralKeypair let c03genErr = $ret2
+//@ at call (*ICMPOpen).Encode assert c03genErr == nil && c03pub == pubOf(c03priv) && $0.RequestID == c03rid && $0.EphemeralPubKey == c03pub
+//@ at call (*ICMPOpen).Encode assert session.RequestID == c03rid && session.EphemeralPrivKey == c03priv && session.EphemeralPubKey == c03pub && session.SessionKey == nil
+//@ after call (*ICMPOpen).Encode let c03open = $ret
+//@ at call SendToPeer assert $2.Type == protocol.FrameICMPOpen && $2.Payload == c03open
+//@ at[C04] call SendToPeer assert !c04data($2.Type)
+
+//@ fieldwritesonly[C03] udpDestAssociation.EphemeralPrivKey: (*Agent).createDestAssociation
+//@ fieldwritesonly[C03] icmpIngressAssociation.EphemeralPrivKey: (*Agent).CreateICMPSession
+//@ fieldwritesonly[C03] icmpWebSocketSession.EphemeralPrivKey: (*Agent).OpenICMPSession
+
+// ACK handlers (initiator side, UDP and ICMP): what C03 demands at the call of DeriveSessionKey and at the
+// point where the pending OPEN is completed successfully (closePendingOpen(nil)). Guards marked FAILS are
+// genuine defects of the code and are reported, not weakened.
+
+//@ func (*Agent).handleUDPOpenAck
+//@ prop C03
+//@ modifies *
+//@ at call SendToPeer assert $2.Type == protocol.FrameUDPOpenAck && $2.Payload == frame.Payload
+//@ after call protocol.DecodeUDPOpenAck let c03ack = $ret0
+//@ at call crypto.ComputeECDH let c03priv = $0
+//@ at call crypto.ComputeECDH let c03remote = $1
+//@ at call crypto.ComputeECDH assert $0 == dest.EphemeralPrivKey && $1 == c03ack.EphemeralPubKey
+//@ at call crypto.ComputeECDH assert dest.EphemeralPubKey == pubOf($0)
+//@ note FAILS (guard above): the stored pair is not a pair any more when a second UDP_OPEN_ACK arrives for the same stream: the first ACK zeroed dest.EphemeralPrivKey (udp.go:589) and nothing marks the exchange as done, so the key is re-derived from an all-zero private key and replaces the working key
+//@ after call crypto.ComputeECDH let c03secret = $ret0
+//@ after call crypto.ComputeECDH let c03dhErr = $ret1
+//@ at call crypto.DeriveSessionKey assert c03dhErr == nil && $0 == c03secret && c03secret == dh(c03priv, c03remote) && c03secret != zeros()
+//@ at call crypto.DeriveSessionKey assert $2 == dest.EphemeralPubKey && $3 == c03remote && $4 == true
+//@ at call crypto.DeriveSessionKey assert $1 == dest.RequestID
+//@ note FAILS (guard above): the request id mixed into the key is ack.RequestID as received, never compared with the id of the OPEN (dest.RequestID); the association is found by stream id only
+//@ after call crypto.DeriveSessionKey let c03key = $ret
+//@ at call closePendingOpen assert $0 == dest && ($1 == nil ==> dest.SessionKey != nil)
+//@ note FAILS (guard above, second call): a UDP_OPEN_ACK whose EphemeralPubKey is all zero completes the OPEN successfully without any key (udp.go:580, 602); RelayUDPDatagram then sends datagrams in plaintext
+//@ at call closePendingOpen assert ($1 == nil && c03ack.EphemeralPubKey != zeros()) ==> dest.SessionKey == c03key && c03key != nil
+//@ after call LookupDownstream let c04relay = $ret
+//@ at[C04] call crypto.ComputeECDH assert c04relay == nil || peerID != c04relay.DownstreamPeer
+//@ note C04: the relay branch of this handler returns before any key material is touched
+//@ at[C04] call SendToPeer assert !c04data($2.Type)
+
+//@ func deriveICMPSessionKey
+//@ prop C03
+//@ check bounds
+//@ modifies contents(ephPrivKey)
+//@ at call crypto.ComputeECDH let c03priv = $0
+//@ at call crypto.ComputeECDH assert $0 == old(*ephPrivKey) && $1 == remotePubKey
+//@ after call crypto.ComputeECDH let c03secret = $ret0
+//@ after call crypto.ComputeECDH let c03dhErr = $ret1
+//@ at call crypto.DeriveSessionKey assert c03dhErr == nil && $0 == c03secret && c03secret == dh(c03priv, remotePubKey) && c03secret != zeros()
+//@ at call crypto.DeriveSessionKey assert $1 == requestID && $2 == ephPubKey && $3 == remotePubKey && $4 == true
+//@ ensures err == nil && remotePubKey != zeros() ==> result0 != nil && result0.isInitiator
+//@ ensures err == nil && remotePubKey != zeros() ==> result0.key == kdf(dh(old(*ephPrivKey), remotePubKey), requestID, ephPubKey, remotePubKey)
+//@ ensures err != nil ==> result0 == nil
+//@ ensures remotePubKey == zeros() ==> result0 == nil && err == nil
+//@ note the last clause states what the body does, not what C03 wants: a zero remote key yields (nil, nil), "encryption disabled", instead of an error. The demand (no successful OPEN without a key) is placed on the caller, handleICMPOpenAck, where it fails
+
+//@ func (*Agent).handleICMPOpenAck
+//@ prop C03
+//@ modifies *
+//@ at call SendToPeer assert $2.Type == protocol.FrameICMPOpenAck && $2.Payload == frame.Payload
+//@ after call protocol.DecodeICMPOpenAck#0 let c03ack = $ret0
+//@ after call protocol.DecodeICMPOpenAck#1 let c03ackWS = $ret0
+//@ at call deriveICMPSessionKey#0 assert *$0 == ingress.EphemeralPrivKey && $1 == ingress.EphemeralPubKey && $2 == c03ack.EphemeralPubKey
+//@ at call deriveICMPSessionKey#1 assert *$0 == wsSession.EphemeralPrivKey && $1 == wsSession.EphemeralPubKey && $2 == c03ackWS.EphemeralPubKey
+//@ at call deriveICMPSessionKey#0 assert ingress.EphemeralPubKey == pubOf(ingress.EphemeralPrivKey)
+//@ at call deriveICMPSessionKey#1 assert wsSession.EphemeralPubKey == pubOf(wsSession.EphemeralPrivKey)
+//@ note FAILS (two guards above): as for UDP, a second ICMP_OPEN_ACK for the same stream finds the private key zeroed by the first (icmp.go:87) and replaces the working key by one derived from an all-zero private key
+//@ at call deriveICMPSessionKey#0 assert $3 == ingress.RequestID
+//@ at call deriveICMPSessionKey#1 assert $3 == wsSession.RequestID
+//@ note FAILS (two guards above): ack.RequestID as received is mixed into the key; it is never compared with the request id of the OPEN
+//@ after call deriveICMPSessionKey#0 let c03key = $ret0
+//@ after call deriveICMPSessionKey#1 let c03keyWS = $ret0
+//@ at call closePendingOpen assert $0 == ingress && ($1 == nil ==> ingress.SessionKey != nil)
+//@ at call closePendingOpenWS assert $0 == wsSession && ($1 == nil ==> wsSession.SessionKey != nil)
+//@ note FAILS (two guards above, at the calls with a nil error): an ICMP_OPEN_ACK whose EphemeralPubKey is all zero completes the OPEN successfully without any key; RelayICMPEcho / runWSICMPSender then send echo payloads in plaintext
+//@ at call closePendingOpen assert ($1 == nil && c03ack.EphemeralPubKey != zeros()) ==> ingress.SessionKey == c03key && c03key != nil
+//@ at call closePendingOpenWS assert ($1 == nil && c03ackWS.EphemeralPubKey != zeros()) ==> wsSession.SessionKey == c03keyWS && c03keyWS != nil
+//@ after call LookupDownstream let c04relay = $ret
+//@ at[C04] call deriveICMPSessionKey assert c04relay == nil || peerID != c04relay.DownstreamPeer
+//@ note C04: the relay branch of this handler returns before any key material is touched
+//@ at[C04] call SendToPeer assert !c04data($2.Type)
+
+//@ census[C03] crypto.DeriveSessionKey in (*Agent).DialContext, (*Agent).dialViaDomainRouteWithContext, (*Agent).DialForward, (*Agent).UploadFile, (*Agent).DownloadFile, (*Agent).DownloadFileStream, (*Agent).OpenShellStream, deriveResponderSessionKey, (*Agent).handleUDPOpenAck, deriveICMPSessionKey
+//@ census[C03] crypto.ComputeECDH in (*Agent).DialContext, (*Agent).dialViaDomainRouteWithContext, (*Agent).DialForward, (*Agent).UploadFile, (*Agent).DownloadFile, (*Agent).DownloadFileStream, (*Agent).OpenShellStream, deriveResponderSessionKey, (*Agent).handleUDPOpenAck, deriveICMPSessionKey
+//@ census[C03] deriveICMPSessionKey in (*Agent).handleICMPOpenAck
+//@ census[C03] deriveResponderSessionKey in (*Agent).handleFileTransferStreamOpen
+
+// Hand-over of the OPEN's request id and initiator key to the endpoint (responder side) and unchanged
+// forwarding by a transit, for the remaining tunnel kinds; the ACK goes back under the same request id with
+// the responder's public key.
+
+//@ func (*Agent).handleFileUploadStreamOpen
+//@ prop C03
+//@ modifies *
+//@ at call handleFileTransferStreamOpen assert $3 == requestID && $4 == remoteEphemeralPub
+
+//@ func (*Agent).handleFileDownloadStreamOpen
+//@ prop C03
+//@ modifies *
+//@ at call handleFileTransferStreamOpen assert $3 == requestID && $4 == remoteEphemeralPub
+
+//@ func (*Agent).handleShellStreamOpen
+//@ prop C03
+//@ modifies *
+//@ at call shell.(*Handler).HandleStreamOpen assert $3 == requestID && $5 == remoteEphemeralPub
+//@ after call shell.(*Handler).HandleStreamOpen let c03code = $ret0
+//@ after call shell.(*Handler).HandleStreamOpen let c03pub = $ret1
+//@ at call WriteStreamOpenAck assert c03code == 0 && $3 == requestID && $6 == c03pub
+
+//@ func (*Agent).handleStreamOpenAck
+//@ prop C03
+//@ modifies *
+//@ at call SendToPeer assert $2.Type == protocol.FrameStreamOpenAck && $2.Payload == frame.Payload
+//@ after call protocol.DecodeStreamOpenAck let c03ack = $ret0
+//@ at call HandleStreamOpenAck assert $1 == c03ack.RequestID && $4 == c03ack.EphemeralPubKey
+//@ at[C04] call SendToPeer assert !c04data($2.Type)
+
+//@ func (*Agent).handleUDPOpen
+//@ prop C03
+//@ modifies *
+//@ after call protocol.DecodeUDPOpen let c03in = $ret0
+//@ at call udp.(*Handler).HandleUDPOpen assert $4 == c03in && $5 == c03in.EphemeralPubKey
+//@ at call (*UDPOpen).Encode assert $0.RequestID == c03in.RequestID && $0.EphemeralPubKey == c03in.EphemeralPubKey
+//@ at[C04] call SendToPeer assert !c04data($2.Type)
+
+//@ func (*Agent).handleICMPOpen
+//@ prop C03
+//@ modifies *
+//@ after call protocol.DecodeICMPOpen let c03in = $ret0
+//@ at call icmp.(*Handler).HandleICMPOpen assert $4 == c03in && $5 == c03in.EphemeralPubKey
+//@ at call (*ICMPOpen).Encode assert $0.RequestID == c03in.RequestID && $0.EphemeralPubKey == c03in.EphemeralPubKey
+//@ at[C04] call SendToPeer assert !c04data($2.Type)
+
+// ---- C04: transit agents see only ciphertext ----
+//
+// Endpoint side, UDP and ICMP (ingress): the datagram / echo frame handed to the mesh must carry exactly the
+// output of Encrypt under the association's key. Ghost c04sealed is 1 once Encrypt has run in this call.
+// The guards "c04sealed == 1" FAIL on the code: without a session key (see the C03 findings: a zero key in the
+// ACK completes the OPEN) the payload is sent as it came from the client.
+
+//@ ghost var c04sealed int
+
+//@ func (*Agent).RelayUDPDatagram
+//@ prop C04
+//@ modifies *, c04sealed
+//@ ghostinit c04sealed = 0
+//@ after call Encrypt set c04sealed = 1
+//@ after call Encrypt let c04ct = $ret0
+//@ at call Encrypt assert $0 == dest.SessionKey && $1 == data
+//@ at call (*UDPDatagram).Encode assert c04sealed == 1
+//@ at call (*UDPDatagram).Encode assert $0.Data == c04ct
+//@ after call (*UDPDatagram).Encode let c04enc = $ret
+//@ at call SendToPeer assert $2.Type == protocol.FrameUDPDatagram && $2.Payload == c04enc
+
+//@ func (*Agent).RelayICMPEcho
+//@ prop C04
+//@ modifies *, c04sealed
+//@ ghostinit c04sealed = 0
+//@ after call Encrypt set c04sealed = 1
+//@ after call Encrypt let c04ct = $ret0
+//@ at call Encrypt assert $0 == assoc.SessionKey && $1 == payload
+//@ at call (*ICMPEcho).Encode assert c04sealed == 1
+//@ at call (*ICMPEcho).Encode assert $0.Data == c04ct
+//@ after call (*ICMPEcho).Encode let c04enc = $ret
+//@ at call SendToPeer assert $2.Type == protocol.FrameICMPEcho && $2.Payload == c04enc
+
+//@ func (*Agent).runWSICMPSender
+//@ prop C04
+//@ modifies *, c04sealed
+//@ at call RLock set c04sealed = 0
+//@ after call Encrypt set c04sealed = 1
+//@ after call Encrypt let c04ct = $ret0
+//@ at call Encrypt assert $0 == session.SessionKey
+//@ at call (*ICMPEcho).Encode assert c04sealed == 1
+//@ at call (*ICMPEcho).Encode assert $0.Data == c04ct
+//@ after call (*ICMPEcho).Encode let c04enc = $ret
+//@ at call SendToPeer assert $2.Type == protocol.FrameICMPEcho && $2.Payload == c04enc
+
+// Endpoint side, exit: the writers used by the UDP and ICMP handlers put the encoded message they are given
+// into the frame unchanged (what the handlers put into the message is checked in packages udp and icmp).
+
+//@ func (*Agent).WriteUDPDatagram
+//@ prop C04
+//@ modifies *
+//@ at call (*UDPDatagram).Encode assert $0 == datagram
+//@ after call (*UDPDatagram).Encode let c04enc = $ret
+//@ at call SendToPeer assert $2.Type == protocol.FrameUDPDatagram && $2.Payload == c04enc && $1 == peerID && $2.StreamID == streamID
+
+//@ func (*Agent).WriteICMPEcho
+//@ prop C04
+//@ modifies *
+//@ at call (*ICMPEcho).Encode assert $0 == echo
+//@ after call (*ICMPEcho).Encode let c04enc = $ret
+//@ at call SendToPeer assert $2.Type == protocol.FrameICMPEcho && $2.Payload == c04enc && $1 == peerID && $2.StreamID == streamID
+
+// Transit side, UDP and ICMP: the relay branches forward the received payload unchanged and nothing else.
+
+//@ func (*Agent).handleUDPDatagram
+//@ prop C04
+//@ modifies *
+//@ at call SendToPeer assert $2.Type == protocol.FrameUDPDatagram && $2.Payload == frame.Payload
+
+//@ func (*Agent).handleICMPEcho
+//@ prop C04
+//@ modifies *
+//@ at call SendToPeer assert $2.Type == protocol.FrameICMPEcho && $2.Payload == frame.Payload
+
+//@ census[C04] (*UDPDatagram).Encode in (*Agent).RelayUDPDatagram, (*Agent).WriteUDPDatagram
+//@ census[C04] (*ICMPEcho).Encode in (*Agent).RelayICMPEcho, (*Agent).runWSICMPSender, (*Agent).WriteICMPEcho
+//@ func (*Agent).closeFileTransferStream
+//@ prop C04
+//@ modifies *
+//@ after call Encrypt let c04ct = $ret0
+//@ at call WriteStreamData assert $3 == c04ct
+
+//@ census[C04] (*Agent).WriteStreamData in (*Agent).UploadFile, (*Agent).DownloadFile, (*Agent).DownloadFileStream, (*Agent).streamFileContent, (*Agent).sendFileDownload, (*Agent).closeFileTransferStream
+
+// Completeness of the endpoint and transit guards above: peer.(*Manager).SendToPeer is the only way this
+// package puts a frame on a link (censuses below). Every function that calls it is listed; those not under
+// one of the C04 guards above never send a frame of a type that carries tunnelled application data
+// (STREAM_DATA, UDP_DATAGRAM, ICMP_ECHO).
+
+//@ ghost func c04data(t uint8) bool = t == protocol.FrameStreamData || t == protocol.FrameUDPDatagram || t == protocol.FrameICMPEcho
+
+//@ func (*Agent).CloseICMPSession
+//@ prop C04
+//@ modifies *
+//@ at call SendToPeer assert !c04data($2.Type)
+
+
+//@ func (*Agent).WriteICMPClose
+//@ prop C04
+//@ modifies *
+//@ at call SendToPeer assert !c04data($2.Type)
+
+//@ func (*Agent).WriteICMPOpenAck
+//@ prop C04
+//@ modifies *
+//@ at call SendToPeer assert !c04data($2.Type)
+
+//@ func (*Agent).WriteICMPOpenErr
+//@ prop C04
+//@ modifies *
+//@ at call SendToPeer assert !c04data($2.Type)
+
+//@ func (*Agent).WriteStreamClose
+//@ prop C04
+//@ modifies *
+//@ at call SendToPeer assert !c04data($2.Type)
+
+//@ func (*Agent).WriteStreamOpenAck
+//@ prop C04
+//@ modifies *
+//@ at call SendToPeer assert !c04data($2.Type)
+
+//@ func (*Agent).WriteStreamOpenErr
+//@ prop C04
+//@ modifies *
+//@ at call SendToPeer assert !c04data($2.Type)
+
+//@ func (*Agent).WriteUDPClose
+//@ prop C04
+//@ modifies *
+//@ at call SendToPeer assert !c04data($2.Type)
+
+//@ func (*Agent).WriteUDPOpenAck
+//@ prop C04
+//@ modifies *
+//@ at call SendToPeer assert !c04data($2.Type)
+
+//@ func (*Agent).WriteUDPOpenErr
+//@ prop C04
+//@ modifies *
+//@ at call SendToPeer assert !c04data($2.Type)
+
+//@ func (*Agent).closeDestAssociation
+//@ prop C04
+//@ modifies *
+//@ at call SendToPeer assert !c04data($2.Type)
+
+//@ func (*Agent).closeWSICMPSession
+//@ prop C04
+//@ modifies *
+//@ at call SendToPeer assert !c04data($2.Type)
+
+
+//@ func (*Agent).handleICMPClose
+//@ prop C04
+//@ modifies *
+//@ at call SendToPeer assert !c04data($2.Type)
+
+//@ func (*Agent).handleICMPOpenErr
+//@ prop C04
+//@ modifies *
+//@ at call SendToPeer assert !c04data($2.Type)
+
+//@ func (*Agent).handleKeepalive
+//@ prop C04
+//@ modifies *
+//@ at call SendToPeer assert !c04data($2.Type)
+
+//@ func (*Agent).handleStreamClose
+//@ prop C04
+//@ modifies *
+//@ at call SendToPeer assert !c04data($2.Type)
+
+//@ func (*Agent).handleStreamOpenErr
+//@ prop C04
+//@ modifies *
+//@ at call SendToPeer assert !c04data($2.Type)
+
+//@ func (*Agent).handleStreamReset
+//@ prop C04
+//@ modifies *
+//@ at call SendToPeer assert !c04data($2.Type)
+
+//@ func (*Agent).handleUDPClose
+//@ prop C04
+//@ modifies *
+//@ at call SendToPeer assert !c04data($2.Type)
+
+//@ func (*Agent).handleUDPOpenErr
+//@ prop C04
+//@ modifies *
+//@ at call SendToPeer assert !c04data($2.Type)
+
+//@ func (*Agent).sendControlResponse
+//@ prop C04
+//@ modifies *
+//@ at call SendToPeer assert !c04data($2.Type)
+
+//@ func (*Agent).sendICMPOpenErr
+//@ prop C04
+//@ modifies *
+//@ at call SendToPeer assert !c04data($2.Type)
+
+//@ func (*Agent).sendUDPOpenErr
+//@ prop C04
+//@ modifies *
+//@ at call SendToPeer assert !c04data($2.Type)
+
+//@ func (*meshConn).Close
+//@ prop C04
+//@ modifies *
+//@ at call SendToPeer assert !c04data($2.Type)
+
+//@ func (*meshConn).CloseWrite
+//@ prop C04
+//@ modifies *
+//@ after call GetSessionKey let c04key = $ret
+//@ at call Encrypt assert $0 == c04key && c04key != nil
+//@ after call Encrypt let c04ct = $ret0
+//@ at call SendToPeer assert $2.Type == protocol.FrameStreamData && $2.Payload == c04ct
+
+//@ census[C04] SendToPeer in (*Agent).CloseICMPSession, (*Agent).CreateICMPSession, (*Agent).DialContext, (*Agent).DialForward, (*Agent).DownloadFile, (*Agent).DownloadFileStream, (*Agent).OpenICMPSession, (*Agent).OpenShellStream, (*Agent).RelayICMPEcho, (*Agent).RelayUDPDatagram, (*Agent).SendControlRequestWithData, (*Agent).UploadFile, (*Agent).WriteICMPClose, (*Agent).WriteICMPEcho, (*Agent).WriteICMPOpenAck, (*Agent).WriteICMPOpenErr, (*Agent).WriteStreamClose, (*Agent).WriteStreamData, (*Agent).WriteStreamOpenAck, (*Agent).WriteStreamOpenErr, (*Agent).WriteUDPClose, (*Agent).WriteUDPDatagram, (*Agent).WriteUDPOpenAck, (*Agent).WriteUDPOpenErr, (*Agent).closeDestAssociation, (*Agent).closeWSICMPSession, (*Agent).createDestAssociation, (*Agent).dialViaDomainRouteWithContext, (*Agent).forwardShellClientData, (*Agent).handleControlRequest, (*Agent).handleControlResponse, (*Agent).handleICMPClose, (*Agent).handleICMPEcho, (*Agent).handleICMPOpen, (*Agent).handleICMPOpenAck, (*Agent).handleICMPOpenErr, (*Agent).handleKeepalive, (*Agent).handleStreamClose, (*Agent).handleStreamData, (*Agent).handleStreamOpen, (*Agent).handleStreamOpenAck, (*Agent).handleStreamOpenErr, (*Agent).handleStreamReset, (*Agent).handleUDPClose, (*Agent).handleUDPDatagram, (*Agent).handleUDPOpen, (*Agent).handleUDPOpenAck, (*Agent).handleUDPOpenErr, (*Agent).runWSICMPSender, (*Agent).sendControlResponse, (*Agent).sendICMPOpenErr, (*Agent).sendUDPOpenErr, (*meshConn).Close, (*meshConn).CloseWrite, (*meshConn).Write
+//@ census[C04] (*Connection).WriteFrame in -
+//@ census[C04] (*Connection).SendData in -
+//@ census[C04] (*Manager).Broadcast in -
